@@ -32,7 +32,16 @@ def explicit(e, skip):
     return tuple(explicit(x, skip) if isinstance(x, tuple) and x and isinstance(x[0], str) else x for x in e)
 
 
-def describe(e, ign, where, klass):
+def describe(e, ign, where, klass, sname='start'):
+    """sname: how the start rule is spelled (any capitalisation of "start" is the start rule)"""
+    d, dx = _describe(e, ign, where, klass)
+    if sname != 'start':
+        d = d.replace('class Start {', f'class {sname} {{').replace('start = ', f'{sname} = ')
+        dx = dx.replace('class Start {', f'class {sname} {{').replace('start = ', f'{sname} = ')
+    return d, dx
+
+
+def _describe(e, ign, where, klass):
     decls, pats = IGNS[ign]
     aux = 'X = "a" | "ba"'
     if klass == 'let':
@@ -86,8 +95,9 @@ def jobs_for(tier, rnd):
         for ign, where, klass in vs:
             alpha = ALPHA.get(ign, 'ab ')
             TX = G.texts(alpha, 4, extra=(' a b ', 'a  b', 'ab  ', '  ab', ' a  a  b', ' b a', '  b ab', ' b  a b') + EXTRA.get(ign, ()))
-            d, dx = describe(e, ign, where, klass)
-            opts = {'ign': ign, 'where': where, 'klass': klass}
+            sname = ['start', 'start', 'Start', 'START', 'sTaRt', 'start'][(n + len(ign)) % 6]
+            d, dx = describe(e, ign, where, klass, sname)
+            opts = {'ign': ign, 'where': where, 'klass': klass, 'start_spelled': sname}
             jobs.append((gid, d, TX, dict(opts, role='ignore')))
             jobs.append((gid + 1, dx, TX, dict(opts, role='explicit')))
             pairs[gid] = gid + 1
